@@ -22,7 +22,8 @@ from common import CORPUS_DIR, call, frac
 
 RULE = ("400 (quick) / 8 x 840 (thorough) histories after the corpus, each of 3..14 operations (add / remove / assign with all or some obstacle ids and all or some time steps / "
         "re-open through an XML or protobuf file with lanelet_assignment=True) over 1..5 obstacles (static, dynamic with a "
-        "trajectory of 1..5 states, dynamic without prediction; rectangle axis-aligned or rotated, circle, polygon, shape group) "
+        "trajectory of 1..5 states, dynamic without prediction, in 15 % of the histories one dynamic obstacle with a "
+        "SetBasedPrediction; rectangle axis-aligned or rotated, circle, polygon, shape group) "
         "on networks of 2..7 lanelets (parallel lanes sharing a boundary, successor lanes, a crossing lane, a bent lane, a far "
         "lane), all coordinates on the grid k/16; obstacle centres sit in a lane, exactly on a shared boundary, half a width "
         "away from it (shape touches / overlaps the neighbour while the centre does not), or off the road. "
@@ -37,11 +38,17 @@ ASSUMPTIONS = [
     "values: lanelets whose answer changes when the rectangle is scaled by 1 +- 1e-9 are ambiguous; counted as excluded",
     "the occupancy of an obstacle at a time step (shape.rotate_translate_local of an exact state) is taken from the library "
     "(C04's business); the oracle reads its raw parameters",
+    "a dynamic obstacle with a SetBasedPrediction is outside the property's quantifier: its recorded sets are not judged and an "
+    "assignment that addresses it (AttributeError by construction) is inadmissible; model and implementation are compared on it, "
+    "and the registries (which must not list it) are judged",
     "histories keep the lanelet network fixed; use_center_only=True and inadmissible arguments (unknown ids, time steps before "
     "the initial one, re-adding a contained obstacle) are compared with the model but not judged by the oracle",
 ]
 TRUSTED = ["shapely/GEOS predicates are not modelled; their answers enter the model as parameters and are checked by the oracle"]
-REQUIRED_BUCKETS = ["entry/assign", "entry/reopen-xml", "entry/reopen-pb", "kind/static", "kind/traj", "kind/none",
+# composition with C06's index model: Env.cen / Env.shp := find_lanelet_by_position / find_lanelet_by_shape on a built network;
+# the geometric sentence with only the primitive predicates within / meets left as parameters (built + audited every run)
+EXTRA_MODULES = ["CRProps.C07b"]
+REQUIRED_BUCKETS = ["entry/assign", "entry/reopen-xml", "entry/reopen-pb", "kind/static", "kind/traj", "kind/none", "kind/set",
                     "shape/rect", "shape/rect-rotated", "shape/circ", "shape/poly", "shape/group",
                     "geo/shape-beyond-center", "geo/touching", "geo/off-road", "geo/multi-lanelet-center",
                     "op/remove-after-assign", "op/readd", "op/partial-assign", "op/center-only", "op/error"]
@@ -171,6 +178,13 @@ def gen_obstacles(r, lanes):
                 tr.append({"pos": [_q(x), _q(y)], "o": 0.0 if axis and r.random() < 0.8 else r.choice(ORIS)})
             o["traj"] = tr
         obs.append(o)
+    if r.random() < 0.15:
+        # a dynamic obstacle with a SetBasedPrediction (outside the property: never assigned, never registered; an
+        # assignment that addresses it raises) rides along in some histories
+        o = r.choice(obs)
+        if o["kind"] != "static":
+            occ = o.pop("traj", None) or [{"pos": gen_position(r, lanes, o["shape"]), "o": 0.0}]
+            o["kind"], o["occ"] = "set", occ
     return obs
 
 
@@ -236,6 +250,22 @@ def gen_ops(r, obs):
         for i in sorted(inside):
             if r.random() < 0.7:
                 ops.append(["remove", i])
+    # while a set-based obstacle is in the scenario most assignments name the other obstacles explicitly
+    setb = {i for i in ids if kind[i] == "set"}
+    if setb:
+        inside, out = set(), []
+        for op in ops:
+            if op[0] == "add" and op[1] not in inside:
+                inside.add(op[1])
+            elif op[0] == "remove":
+                inside.discard(op[1])
+            elif op[0] == "assign" and (inside & setb) and r.random() < 0.8:
+                sub = [i for i in (sorted(inside) if op[1] is None else op[1]) if i not in setb]
+                if not sub:
+                    continue
+                op = ["assign", sub, op[2], op[3]]
+            out.append(op)
+        ops = out
     return ops
 
 
@@ -268,6 +298,11 @@ def build_obstacle(o):
     if o["kind"] == "static":
         return StaticObstacle(o["id"], ObstacleType.PARKED_VEHICLE, shape, ini, signal_series=[])
     pred = None
+    if o["kind"] == "set":
+        from commonroad.prediction.prediction import Occupancy, SetBasedPrediction
+        occs = [Occupancy(int(o["t0"]) + 1 + k, geom.build_shape(o["shape"]).rotate_translate_local(
+            np.array(s["pos"], dtype=float), float(s["o"]))) for k, s in enumerate(o["occ"])]
+        pred = SetBasedPrediction(int(o["t0"]) + 1, occs)
     if o["kind"] == "traj":
         sts = [KSState(position=np.array(s["pos"], dtype=float), orientation=float(s["o"]), time_step=int(o["t0"]) + 1 + k,
                        velocity=1.0, steering_angle=0.0) for k, s in enumerate(o["traj"])]
@@ -317,8 +352,8 @@ def observe(sc, objs):
     for oid, ob in objs.items():
         p = getattr(ob, "prediction", None)
         fwd[str(oid)] = {"ic": _sset(ob.initial_center_lanelet_ids), "is": _sset(ob.initial_shape_lanelet_ids),
-                         "pc": _sdict(p.center_lanelet_assignment) if p is not None else None,
-                         "ps": _sdict(p.shape_lanelet_assignment) if p is not None else None}
+                         "pc": _sdict(getattr(p, "center_lanelet_assignment", None)),
+                         "ps": _sdict(getattr(p, "shape_lanelet_assignment", None))}
     lanes = sorted(sc.lanelet_network.lanelets, key=lambda l: l.lanelet_id)
     return {"fwd": fwd,
             "statics": sorted(o.obstacle_id for o in sc.static_obstacles),
@@ -498,6 +533,9 @@ class World:
         for oid, o in self.spec.items():
             ob = self.objs[oid]
             rows = []
+            if o["kind"] == "set":          # never looked up by the code (and not by the model)
+                out[oid] = [[o["t0"], [], []]]
+                continue
             for t in horizon(o):
                 st = ob.initial_state if t == o["t0"] else ob.prediction.trajectory.state_at_time_step(t)
                 c = sorted(int(x) for x in set(net.find_lanelet_by_position([st.position])[0]))
@@ -535,6 +573,8 @@ def admissible(op, spec, inside):
         ids = sorted(inside) if op[1] is None else op[1]
         if any(i not in inside for i in ids):
             return False
+        if any(spec[i]["kind"] == "set" for i in ids):
+            return False      # a SetBasedPrediction is outside the property; the call raises AttributeError by construction
         if op[2] is not None:
             for i in ids:
                 if spec[i]["kind"] == "traj" and any(t < spec[i]["t0"] for t in op[2]):
@@ -559,6 +599,8 @@ def judge(w, op, opname, inside, shape_mode, st, sub):
     for oid, o in w.spec.items():
         f = st["fwd"][str(oid)]
         sk = top_kind(o["shape"])
+        if o["kind"] == "set":
+            continue          # outside the property's quantifier (compared with the model only; the registries are judged below)
         for t in horizon(o):
             recs = []
             if t == o["t0"]:
@@ -706,7 +748,7 @@ def tag_case(ctx, w, case):
         ctx.tag("shape/" + top_kind(o["shape"]))
         if o["shape"]["k"] == "rect" and (o["o"] != 0 or any(s["o"] != 0 for s in o.get("traj", []))):
             ctx.tag("shape/rect-rotated")
-        for t in horizon(o):
+        for t in (horizon(o) if o["kind"] != "set" else []):
             r = call(w.brute, o["id"], t)
             if r[0] != "ok":
                 continue
